@@ -244,6 +244,19 @@ impl<M: Math, A: MassMatrixAdaptStrategy<M>> AdaptStrategy<M> for GlobalStrategy
     fn last_num_steps(&self) -> u64 {
         self.step_size.last_n_steps
     }
+
+    #[cfg(nuts_rs_verif)]
+    fn verif_counters(&self) -> Option<crate::verif::AdaptCounters> {
+        Some(crate::verif::AdaptCounters {
+            foreground: self.mass_matrix_adapt.current_count(),
+            background: self.mass_matrix_adapt.background_count(),
+            window: self.current_window_size,
+            early_end: self.early_end,
+            final_window_start: self.final_step_size_window,
+            last_update: self.last_update,
+            has_initial_mass_matrix: self.has_initial_mass_matrix,
+        })
+    }
 }
 
 #[derive(Debug, Storable)]
